@@ -449,3 +449,6 @@ def r6_scaled_thresholds(ctx):
 
 
 RULES.append(r6_scaled_thresholds)
+
+from .common import lazy  # noqa: E402
+RULES.append(lazy("C03", "r8_initial_state_owned", "the preschedule stays a faithful summary while the job runs: the controller's working copies must not be the preschedule's own consumer sets"))
